@@ -39,6 +39,16 @@ def _escapecss(e):
 codecs.register_error('escapecss', _escapecss)
 
 
+def _hastext(val, name):
+    """True if `val` has the text attribute `name`.
+
+    Asked of the class first: ``hasattr(val, 'cssText')`` on an object whose
+    ``cssText`` is a property serialises it just to see that it can be -
+    for nested values twice on every level, which is exponential in depth.
+    """
+    return hasattr(type(val), name) or hasattr(val, name)
+
+
 class Preferences(object):
     r"""Control output of CSSSerializer.
 
@@ -258,9 +268,9 @@ class Out(object):
                 val = helper.uri(val)
             elif 'HASH' == type_:
                 val = self.ser._hash(val)
-            elif hasattr(val, 'cssText'):
+            elif _hastext(val, 'cssText'):
                 val = val.cssText
-            elif hasattr(val, 'mediaText'):
+            elif _hastext(val, 'mediaText'):
                 val = val.mediaText
             elif val in '+>~,:{;)]/=}' and not alwaysS:
                 self._remove_last_if_S()
@@ -1040,7 +1050,7 @@ class CSSSerializer(object):
                 type_, val = item.type, item.value
                 if valuesOnly and type_ == css_parser.css.CSSComment:
                     continue
-                elif hasattr(val, 'cssText'):
+                elif _hastext(val, 'cssText'):
                     # RGBColor or CSSValue if a CSSValueList
                     out.append(val.cssText, type_)
                 else:
@@ -1136,7 +1146,7 @@ class CSSSerializer(object):
 
                 if valuesOnly and type_ == css_parser.css.CSSComment:
                     continue
-                elif hasattr(val, 'cssText'):
+                elif _hastext(val, 'cssText'):
                     # RGBColor or CSSValue if a CSSValueList
                     out.append(val.cssText, type_)
                 elif type_ == 'CHAR' and val in '-+*/':
